@@ -202,7 +202,9 @@ func (wk *worker) primUnit(i, round int) {
 		}
 		wk.primExec(p, name, b, mut{Class: cls})
 		sweep(b, sweepSpec{Fields: true, Trunc: true, Flips: 64}, r, func(in []byte, m mut) { wk.primExec(p, name, in, m) })
-		big24Sample(b, 0, 1, r, func(in []byte, m mut) { wk.primExec(p, name, in, m) })
+		if round == 0 {
+			big24Sample(b, 0, 1, r, func(in []byte, m mut) { wk.primExec(p, name, in, m) })
+		}
 	}
 	if round == 0 {
 		for oi := range primReaders {
